@@ -82,15 +82,15 @@ macro_rules! c06_verify_foreign_modulus {
 }
 // @ob id=C06 also=C18 tier=quick req=1 to=900 fs=1 name=c06_verify_foreign_modulus_1 any_sizes="1,4" funcs="verify,AcceptableOptions::validate,Proof::security_level,Context::num_modulus_bits,Context::to_elements" bounds="toy AIR (1 column, 8 steps, blowup 2); claimed field modulus of 1 byte" sym="modulus bytes, caller's minimum security" enum="modulus length" desc="verify() of a proof whose context claims another field modulus returns an error (no panic, no arithmetic overflow in the security estimate or in the seed construction)"
 c06_verify_foreign_modulus!(c06_verify_foreign_modulus_1, 1);
-// @ob id=C06 also=C18 tier=quick req=1 to=900 fs=1 name=c06_verify_foreign_modulus_2 any_sizes="2,4" funcs="verify,AcceptableOptions::validate,Proof::security_level,Context::num_modulus_bits,Context::to_elements" bounds="toy AIR; claimed field modulus of 2 bytes (the toy field's own length), value != 257" sym="modulus bytes, caller's minimum security" enum="modulus length" desc="as above"
+// @ob id=C06 also=C18 tier=quick req=1 to=900 fs=1 name=c06_verify_foreign_modulus_2 any_sizes="1,1,4" funcs="verify,AcceptableOptions::validate,Proof::security_level,Context::num_modulus_bits,Context::to_elements" bounds="toy AIR; claimed field modulus of 2 bytes (the toy field's own length), value != 257" sym="modulus bytes, caller's minimum security" enum="modulus length" desc="as above"
 c06_verify_foreign_modulus!(c06_verify_foreign_modulus_2, 2);
-// @ob id=C06 also=C18 tier=quick req=1 to=900 fs=1 name=c06_verify_foreign_modulus_4 any_sizes="4,4" funcs="verify,AcceptableOptions::validate,Proof::security_level,Context::num_modulus_bits,Context::to_elements" bounds="toy AIR; claimed field modulus of 4 bytes (each half as long as a toy field element)" sym="modulus bytes, caller's minimum security" enum="modulus length" desc="as above"
+// @ob id=C06 also=C18 tier=quick req=1 to=900 fs=1 name=c06_verify_foreign_modulus_4 any_sizes="1,1,1,1,4" funcs="verify,AcceptableOptions::validate,Proof::security_level,Context::num_modulus_bits,Context::to_elements" bounds="toy AIR; claimed field modulus of 4 bytes (each half as long as a toy field element)" sym="modulus bytes, caller's minimum security" enum="modulus length" desc="as above"
 c06_verify_foreign_modulus!(c06_verify_foreign_modulus_4, 4);
-// @ob id=C06 also=C18 tier=quick req=1 to=900 fs=1 name=c06_verify_foreign_modulus_9 any_sizes="9,4" funcs="verify,AcceptableOptions::validate,Proof::security_level,Context::num_modulus_bits,Context::to_elements" bounds="toy AIR; claimed field modulus of 9 bytes" sym="modulus bytes, caller's minimum security" enum="modulus length" desc="as above"
+// @ob id=C06 also=C18 tier=quick req=1 to=900 fs=1 name=c06_verify_foreign_modulus_9 any_sizes="1,1,1,1,1,1,1,1,1,4" funcs="verify,AcceptableOptions::validate,Proof::security_level,Context::num_modulus_bits,Context::to_elements" bounds="toy AIR; claimed field modulus of 9 bytes" sym="modulus bytes, caller's minimum security" enum="modulus length" desc="as above"
 c06_verify_foreign_modulus!(c06_verify_foreign_modulus_9, 9);
 
 // the security estimate itself on a proof with an untrusted claimed modulus (Proof::security_level is public API)
-// @ob id=C18 also=C06 tier=quick req=1 to=900 fs=1 any_sizes="2,1" funcs="Proof::security_level,get_conjectured_security,Context::num_modulus_bits" bounds="claimed field modulus of 1..=2 arbitrary bytes; toy AIR parameters" sym="modulus bytes" desc="the conjectured security level of a parsed proof never underflows or panics, whatever field modulus the proof claims, and is 0 when the claimed field is smaller than the LDE domain"
+// @ob id=C18 also=C06 tier=quick req=1 to=900 fs=1 any_sizes="1,1,1" funcs="Proof::security_level,get_conjectured_security,Context::num_modulus_bits" bounds="claimed field modulus of 1..=2 arbitrary bytes; toy AIR parameters" sym="modulus bytes" desc="the conjectured security level of a parsed proof never underflows or panics, whatever field modulus the proof claims, and is 0 when the claimed field is smaller than the LDE domain"
 #[kani::proof]
 #[kani::unwind(16)]
 #[kani::stub(alloc::fmt::format, nofmt)]
